@@ -419,7 +419,7 @@ pub fn run(args: &Args, mon: &mut Mon) -> (String, Vec<&'static str>) {
         }
     }
     let n_b = fam_b.len() as u64;
-    let b_stride = if miri { args.param_u64("b_stride", 1499) } else { 1 };
+    let b_stride = if miri { args.param_u64("b_stride", if thorough { 37 } else { 751 }) } else { 1 };
     par_run(mon, args.threads, n_b, |i, m| {
         if !args.mine(i) || (b_stride > 1 && i % b_stride != args.seed % b_stride) {
             return;
@@ -436,7 +436,7 @@ pub fn run(args: &Args, mon: &mut Mon) -> (String, Vec<&'static str>) {
     // Family C: L4 payload views on every truncation of structured UDP / SCMP payloads, and
     // standalone path views
     let scale = args.param_u64("scale", 1);
-    let n_c: u64 = if miri { 12 } else if thorough { 40_000 * scale } else { 6_000 * scale };
+    let n_c: u64 = if miri { if thorough { 400 } else { 24 } } else if thorough { 40_000 * scale } else { 6_000 * scale };
     par_run(mon, args.threads, n_c, |i, m| {
         if !args.mine(i) {
             return;
@@ -468,7 +468,7 @@ pub fn run(args: &Args, mon: &mut Mon) -> (String, Vec<&'static str>) {
     });
 
     // Family D: random bytes biased to packet shape by the crate's own helper, plus plain noise
-    let n_d: u64 = if miri { 30 } else if thorough { 3_000_000 * scale } else { 300_000 * scale };
+    let n_d: u64 = if miri { if thorough { 1200 } else { 64 } } else if thorough { 3_000_000 * scale } else { 300_000 * scale };
     par_run(mon, args.threads, n_d, |i, m| {
         if !args.mine(i) {
             return;
